@@ -136,7 +136,7 @@ CHECKS["C15"] = dict(
 CHECKS["C04"] = dict(
     engine="store-driver",
     category="exploration",
-    text="Accept half: after every operation of generated histories (rollover ratios 1, 2, 8) an independent parser re-checks every manifest fragment: input == previous output, input == output + discard, discard == sum(removed) - sum(added), fragments chain through their roll-ups, final output == sum of listed digests, and each listed sst's name, stored setsum and setsum recomputed from a full walk agree; every verifier pass must accept or back off. Reject half: one hex digit of one recorded digest (+, -, I, O, D of a non-roll-up transaction) is altered with the line CRC fixed up; ManifestVerifier must reject the fragment and, when the offline verifier processes that fragment on the genuine history, LsmVerifier must reject the tampered copy; and a GC output from which one policy-required entry was removed, with the whole later history re-balanced so that all equations still hold, must be rejected by the verifier's GC replay. Content-level reject half: for a generated history one output of one compaction (merge or GC) gets a policy-required entry dropped (also the whole output), a value modified or an entry duplicated into an extra output file, and the whole recorded history is re-balanced so that every setsum equation still holds; the verifier must reject.",
+    text="Accept half: after every operation of generated histories (rollover ratios 1, 2, 8) an independent parser re-checks every manifest fragment: input == previous output, input == output + discard, discard == sum(removed) - sum(added), fragments chain through their roll-ups, final output == sum of listed digests, and each listed sst's name, stored setsum and setsum recomputed from a full walk agree; every verifier pass must accept or back off. Reject half: one hex digit of one recorded digest (+, -, I, O, D of a transaction, or the O of the roll-up that heads a fragment) is altered with the line CRC fixed up; ManifestVerifier must reject the fragment and, when the offline verifier processes that fragment on the genuine history, LsmVerifier must reject the tampered copy; and a GC output from which one policy-required entry was removed, with the whole later history re-balanced so that all equations still hold, must be rejected by the verifier's GC replay. Content-level reject half: for a generated history one output of one compaction (merge or GC) gets a policy-required entry dropped (also the whole output), a value modified or an entry duplicated into an extra output file, and the whole recorded history is re-balanced so that every setsum equation still holds; the verifier must reject.",
     design_ref="DESIGN.md §5 C04",
     note=STORE_NOTE + "",
     technique="stateful property-based testing with an independent balance checker (accept) and re-balanced single-entry / single-digit tampering (reject)",
